@@ -235,6 +235,18 @@ func specialHandler(display string) *special {
 			}
 			return out, true
 		}}
+	case "sort.Slice", "sort.SliceStable":
+		return &special{run: runSortSlice, assigns: func(fr *Frame, c *ssa.CallCommon, out map[string]bool) (map[string]bool, bool) {
+			if len(c.Args) == 2 {
+				if mi, ok := c.Args[0].(*ssa.MakeInterface); ok {
+					if st, ok := mi.X.Type().Underlying().(*types.Slice); ok {
+						fr.ex.leafArraysOf(st.Elem(), out, map[string]bool{})
+						return out, false
+					}
+				}
+			}
+			return out, true
+		}}
 	case "fmt.Errorf":
 		return &special{run: runErrorf, assigns: noAssigns}
 	case "errors.New":
@@ -448,6 +460,96 @@ func runErrorsAs(fr *Frame, in ssa.Instruction, c *ssa.CallCommon, ci calleeInfo
 	old := ex.load(fr.curMem, tt, target.T)
 	ex.store(fr.curMem, tt, target.T, ite(res, nv, old))
 	return []Val{{T: res, S: SBool, G: types.Typ[types.Bool]}}
+}
+
+// sort.Slice(x, less): the elements of x are permuted (bijection sortperm on [0,len): the element now at a was at
+// sortperm(a)); nothing else changes. When the less literal has a contract "ensures result == E" (E over its two
+// parameters and the captured variables), the result is sorted by it: for positions j < i, !less(i, j).
+func runSortSlice(fr *Frame, in ssa.Instruction, c *ssa.CallCommon, ci calleeInfo, args []Val) []Val {
+	ex := fr.ex
+	mi, ok := c.Args[0].(*ssa.MakeInterface)
+	var st *types.Slice
+	if ok {
+		st, ok = mi.X.Type().Underlying().(*types.Slice)
+	}
+	if !ok {
+		fr.curMem = ex.havocLib(fr.curMem)
+		return nil
+	}
+	s := fr.val(mi.X)
+	n := fr.siteOrdinal(in, ci.display)
+	perm := fmt.Sprintf("sortperm_%s_%d", sanitize(canonName(fr.fn)), n)
+	inv := perm + "_inv"
+	ex.declFun(perm, "(Int) Int")
+	ex.declFun(inv, "(Int) Int")
+	if ex.sortPerms == nil {
+		ex.sortPerms = map[string]string{}
+	}
+	ex.sortPerms[fmt.Sprintf("%s#%d", canonName(fr.fn), n)] = perm
+	ln := fmt.Sprintf("(slen %s)", s.T)
+	ex.assume(fmt.Sprintf("(forall ((a Int)) (! (=> (and (<= 0 a) (< a %s)) (and (<= 0 (%s a)) (< (%s a) %s) (= (%s (%s a)) a))) :pattern ((%s a))))", ln, perm, perm, ln, inv, perm, perm), fr.curReach)
+	ex.assume(fmt.Sprintf("(forall ((a Int)) (! (=> (and (<= 0 a) (< a %s)) (and (<= 0 (%s a)) (< (%s a) %s) (= (%s (%s a)) a))) :pattern ((%s a))))", ln, inv, inv, ln, perm, inv, inv), fr.curReach)
+	for _, lf := range fr.leafPaths(st.Elem()) {
+		cur := ex.memGet(fr.curMem, lf.arr)
+		nv := ex.memHavoc(fr.curMem, lf.arr)
+		e := lf.inv("a")
+		rel := fmt.Sprintf("(- (ea_idx %s) (soff %s))", e, s.T)
+		inRange := fmt.Sprintf("(and (= a %s) (= (ea_arr %s) (sarr %s)) (>= %s 0) (< %s %s))", lf.apply(fmt.Sprintf("(ea (ea_arr %s) (ea_idx %s))", e, e)), e, s.T, rel, rel, ln)
+		src := fmt.Sprintf("(select %s %s)", cur, lf.apply(fmt.Sprintf("(ea (sarr %s) (+ (soff %s) (%s %s)))", s.T, s.T, perm, rel)))
+		ex.emit("(assert (forall ((a Int)) (! (= (select %s a) (ite %s %s (select %s a))) :pattern ((select %s a)))))", nv, inRange, src, cur, nv)
+	}
+	// sortedness from the contract of the less literal
+	var lessFn *ssa.Function
+	captured := map[string]Val{}
+	switch x := c.Args[1].(type) {
+	case *ssa.MakeClosure:
+		lessFn, _ = x.Fn.(*ssa.Function)
+		if lessFn != nil {
+			for i, b := range x.Bindings {
+				if i < len(lessFn.FreeVars) {
+					captured[lessFn.FreeVars[i].Name()] = fr.val(b) // as in the literal's own contract: the captured cell
+				}
+			}
+		}
+	case *ssa.Function:
+		lessFn = x
+	}
+	if lessFn == nil || len(lessFn.Params) != 2 {
+		ex.note("sort.Slice#%d of %s: less is not a function literal; only the permutation is known", n, fr.fn.Name())
+		return nil
+	}
+	ct := ex.S.Contracts[canonName(lessFn)]
+	var body Expr
+	if ct != nil {
+		for _, cl := range ct.Ensures {
+			if b, ok := cl.E.(*EBin); ok && b.Op == "==" {
+				if id, ok := b.X.(*EIdent); ok && id.Name == "result" {
+					body = b.Y
+				}
+			}
+		}
+	}
+	if body == nil {
+		ex.note("sort.Slice#%d of %s: the less literal %s has no contract 'ensures result == E'; only the permutation is known", n, fr.fn.Name(), lessFn.Name())
+		return nil
+	}
+	ex.usedSpecs[ct.Key] = true
+	pi, pj := lessFn.Params[0].Name(), lessFn.Params[1].Name()
+	rng := &EBin{Op: "&&", X: &EBin{Op: "&&", X: &EBin{Op: "<=", X: &ELit{Kind: "int", Val: "0"}, Y: &EIdent{Name: pj}}, Y: &EBin{Op: "<", X: &EIdent{Name: pj}, Y: &EIdent{Name: pi}}}, Y: &EBin{Op: "<", X: &EIdent{Name: pi}, Y: &EIdent{Name: "sortlen"}}}
+	q := &EQuant{Forall: true, Vars: []Binder{{Name: pj, Type: "int"}, {Name: pi, Type: "int"}}, Body: &EBin{Op: "==>", X: rng, Y: &EUn{Op: "!", X: body}}}
+	ec := fr.evalCtx(fr.curMem, fr.entryMem)
+	for k, v := range captured {
+		ec.names[k] = v
+	}
+	ec.names["sortlen"] = Val{T: ln, S: SInt, G: types.Typ[types.Int]}
+	ec.at = in
+	g, err := ec.tryBool(q)
+	if err != nil {
+		ex.note("sort.Slice#%d of %s: the contract of %s cannot be evaluated at the call (%s); only the permutation is known", n, fr.fn.Name(), lessFn.Name(), err.Error())
+		return nil
+	}
+	ex.assume(g, fr.curReach)
+	return nil
 }
 
 // retryClosure: the function literal handed to retry.RetryOnConflict / retry.OnError (last argument), if it is one.
